@@ -409,6 +409,9 @@ def xq(expr: str, root=None, _item=None, _reuse=True, **variables):
     hist = _HISTORY[expr]
     step = (rt, _item, dict(variables))
     a, b = canon_outcome(o_reused), canon_outcome(o_fresh)
+    REUSE['n'] = REUSE.get('n', 0) + 1
+    if REUSE['n'] % 4 == 0 and o_fresh[0]:
+        other_paths(expr, sel, rt, kw, o_fresh[1], step)
     if a != b and len(REUSE_DIFFS) < 40:
         REUSE_DIFFS.append({'expr': expr, 'steps': list(hist[-3:]) + [step], 'n': len(hist) + 1, 'reused': a, 'fresh': b})
     hist.append(step)
@@ -417,6 +420,36 @@ def xq(expr: str, root=None, _item=None, _reuse=True, **variables):
     if not o_reused[0]:
         raise o_reused[1]
     return o_reused[1]
+
+
+def flat_canon(r) -> str:
+    items = r if isinstance(r, list) else [r]
+    return json.dumps([canon_result(x) for x in items], ensure_ascii=True, default=str)
+
+
+PATH_DIFFS: list[dict] = []
+
+
+def other_paths(expr, sel, rt, kw, fresh_result, step):
+    """the other public evaluation paths on the same compiled token: Selector.iter_select and
+    root_token.evaluate(XPathContext) must give the items select() gives"""
+    c = ep()
+    want = flat_canon(fresh_result)
+    if any(isinstance(x, c['XPathArray']) for x in (fresh_result if isinstance(fresh_result, list) else [fresh_result])):
+        return
+    REUSE['other_paths'] = REUSE.get('other_paths', 0) + 1
+    o1 = outcome(lambda: list(sel.iter_select(rt, **kw)))
+    got1 = flat_canon(o1[1]) if o1[0] else err_text(o1[1])
+    ctx_kw = dict(kw)
+    o2 = outcome(lambda: sel.root_token.evaluate(c['elementpath'].XPathContext(rt, **ctx_kw)))
+    r2 = o2[1] if o2[0] else None
+    if o2[0] and any(isinstance(x, c['XPathArray']) for x in (r2 if isinstance(r2, list) else [r2])):
+        got2 = want
+    else:
+        got2 = flat_canon(r2) if o2[0] else err_text(o2[1])
+    for name, got in (('Selector.iter_select', got1), ('root_token.evaluate(context)', got2)):
+        if got != want and len(PATH_DIFFS) < 20:
+            PATH_DIFFS.append({'expr': expr, 'path': name, 'got': got, 'select': want, 'input': describe_input(*step)})
 
 
 def reuse_disagreements() -> list[Disagreement]:
@@ -451,6 +484,10 @@ def reuse_disagreements() -> list[Disagreement]:
                                 site='token state kept between evaluations: ' + d['expr'][:60]))
     del REUSE_DIFFS[:]
     del PURITY_DIFFS[:]
+    for d in PATH_DIFFS:
+        out.append(Disagreement({'kind': 'PATHS', 'expr': d['expr'], 'path': d['path'], 'input': d['input']}, impl=d['got'], model=d['select'],
+                                spec=d['select'], what='evaluation path %s disagrees with select()' % d['path'], site=d['expr'][:80]))
+    del PATH_DIFFS[:]
     return pur + out
 
 
@@ -1176,7 +1213,7 @@ def check_xml(run: Run, case) -> list[Disagreement]:
     else:
         want = canon_xml(node)
         want[4] = ''
-    tags = ['F17n'] if case['lib'] == 'etree' and subtree_has_cr(node) else []
+    tags: list[str] = []
     expr = XML_VARIANTS[variant]
     try:
         res = xq(expr, root=tree if tree is not None else root, _item=elem)
@@ -1199,14 +1236,14 @@ def check_xml(run: Run, case) -> list[Disagreement]:
         impl, deq = err_text(e), None
     spec = json.dumps(want, ensure_ascii=True)
     st.count('xml:%s:%s%s' % (case['lib'], variant, ':big' if case.get('big') else ''))
-    if tags:
-        st.count('xml:CR-in-character-data (F17n trigger)')
+    if subtree_has_cr(node):
+        st.count('xml:CR-in-character-data')
     out = []
     cj = {'kind': 'XML', 'lib': case['lib'], 'variant': variant, 'expr': expr, 'xml': spec if len(spec) < 3000 else spec[:3000] + '...'}
     if impl != spec:
         out.append(Disagreement(cj, impl, None, spec=spec, what='parse-xml(serialize(node)) structure',
                                 site='fn:serialize / fn:parse-xml', tags=tags))
-    elif deq is not None and deq is not True and not (variant == 'inner' and elem is not None and elem.tail):
+    elif deq is not None and deq is not True:
         out.append(Disagreement(cj, 'deep-equal=%r' % (deq,), None, spec='deep-equal=True',
                                 what='fn:deep-equal(parse-xml(serialize(node)), node)', site='fn:deep-equal', tags=tags))
     return out
@@ -1269,9 +1306,9 @@ def check_xesc(run: Run, case, ans) -> list[Disagreement]:
         except Exception as e:
             impl = err_text(e)
         spec = okcps(s) + ' ' + okcps(s)
-        model = (f['rt'] if lib == 'etree' else f['rl']) + ' ' + f['ra']
+        model = (f['rp'] if lib == 'etree' else f['rl']) + ' ' + f['ra']
         if impl != spec or impl != model:
-            tags = ['F17n'] if lib == 'etree' and has_cr and f['cr'] == '1' else []
+            tags: list[str] = []
             out.append(Disagreement(dict(cj, lib=lib), impl, model, spec=spec, tags=tags,
                                     what='parse-xml(serialize(<a k=s>s</a>)) text and attribute', site='fn:serialize / fn:parse-xml'))
     return out
@@ -1516,6 +1553,56 @@ def check_serp(run: Run, case) -> list[Disagreement]:
     st.count('serp:ok')
     if not isinstance(text, str):
         return [Disagreement(cj, repr(text)[:200], None, spec='xs:string', what='fn:serialize result is not a string', site='fn:serialize')]
+    if step['node'] in ('self', 'document') and ('"method":"text"' in entries or '"method":"html"' in entries
+                                                  or '"method":"xhtml"' in entries or '"method":"adaptive"' in entries):
+        node_expr = '.' if step['node'] == 'self' else '/'
+        rt = root
+        if step['node'] == 'document':
+            rt = root.getroottree() if hasattr(root, 'getroottree') else ep()['ET'].ElementTree(root)
+        it = None if (el is root or step['node'] == 'document') else el
+        def string_value(e) -> str:           # XDM string value, computed independently (document order)
+            if callable(e.tag):
+                return ''
+            return (e.text or '') + ''.join(string_value(ch) + (ch.tail or '') for ch in e)
+        sv = string_value(el if step['node'] == 'self' else root)
+        if '"method":"text"' in entries:
+            st.count('serp:text-method-checked')
+            if text != sv:
+                top = el if step['node'] == 'self' else root
+                has_cpi = any(callable(e.tag) for e in top.iter())
+                tags = ['F17w'] if lib == 'etree' and has_cpi else []
+                return [Disagreement(cj, okcps(text), None, spec=okcps(sv), tags=tags, what='serialize(node, method text) = string value of the node',
+                                     site='serialization.serialize_to_xml method')]
+        elif '"method":"adaptive"' in entries:
+            xml_text = xq('serialize(%s)' % node_expr, root=rt, _item=it)
+            st.count('serp:adaptive-checked')
+            if text != xml_text:
+                return [Disagreement(cj, okcps(text), None, spec=okcps(xml_text), tags=['F17u'] if text == '' else [],
+                                     what='serialize(node, method adaptive) = xml serialization of the node', site='fn:serialize method adaptive')]
+        else:
+            from html.parser import HTMLParser
+            st.count('serp:html-method-checked')
+
+            class Collect(HTMLParser):          # a tokenizer only: no restructuring, text in document order
+                def __init__(self):
+                    super().__init__(convert_charrefs=True)
+                    self.data = []
+
+                def handle_data(self, d):
+                    self.data.append(d)
+            try:
+                hp = Collect()
+                hp.feed(text)
+                hp.close()
+                got = ''.join(hp.data)
+            except Exception as e:
+                got = 'unparsable:' + type(e).__name__
+            norm = lambda t: t.replace('\r\n', '\n').replace('\r', '\n')
+            tokenizable = '<_' not in text and ':_' not in text and '</_' not in text   # html.parser wants a letter first
+            if tokenizable and norm(got) != norm(sv):
+                return [Disagreement(dict(cj, text=text[:300]), okcps(got), None, spec=okcps(sv),
+                                     what='serialize(node, method html): text content = string value of the node', site='fn:serialize method html')]
+        return []
     if neutral and step['node'] in ('self', 'document') and 'method' not in entries.replace('"method":"xml"', ''):
         want = canon_xml(el if step['node'] == 'self' else root)
         want[4] = ''
@@ -1533,7 +1620,7 @@ def check_serp(run: Run, case) -> list[Disagreement]:
         spec = json.dumps(want, ensure_ascii=True)
         st.count('serp:round-trip-checked')
         if impl != spec:
-            tags = ['F17n'] if lib == 'etree' and subtree_has_cr(el if step['node'] == 'self' else root) else []
+            tags: list[str] = []
             return [Disagreement(dict(cj, text=text[:400]), impl, None, spec=spec, tags=tags,
                                  what='parse-xml(serialize(node, params)) structure', site='fn:serialize parameters')]
     return []
@@ -1575,7 +1662,7 @@ def check_serh(run: Run, case) -> list[Disagreement]:
     if impl == spec:
         return []
     root, _ = build_serp_tree(seed, lib)
-    tags = ['F17n'] if lib == 'etree' and subtree_has_cr(root) else []
+    tags: list[str] = []
     # smallest history: one serialization + the round trip
     for stp in steps:
         i2, s2, d2 = run_serh(seed, lib, [stp])
@@ -1598,7 +1685,7 @@ MULTI_EXPR = {
     'xml-seq': ('for $e in $es return deep-equal(parse-xml(serialize($e))/*, $e)',
                 'deep-equal(parse-xml(serialize($e))/*, $e)', 'e', True),
     'xml-inner': ('for $e in //* return deep-equal(parse-xml(serialize($e))/*, $e)',
-                  'deep-equal(parse-xml(serialize(.))/*, .)', None, False),   # inner elements: tail is not serialized
+                  'deep-equal(parse-xml(serialize(.))/*, .)', None, True),    # inner elements with tails included
     'xml-docs': ('for $s in $ss return parse-xml($s)', 'parse-xml($s)', 's', False),
     'fragment': ('for $s in $ss return parse-xml-fragment($s)', 'parse-xml-fragment($s)', 's', False),
     'json': ('for $s in $ss return map{"r": parse-json($s)}', 'map{"r": parse-json($s)}', 's', False),
@@ -1704,7 +1791,7 @@ def check_multi(run: Run, case) -> list[Disagreement]:
                                 site=MULTI_EXPR[sub][1]))
     elif MULTI_EXPR[sub][3] and want != json.dumps([True] * n):
         cj['items'] = [canon_xml(x) for x in items]
-        tags = ['F17n'] if lib == 'etree' and any(subtree_has_cr(x) for x in items) else []
+        tags: list[str] = []
         out.append(Disagreement(cj, got, None, spec=json.dumps([True] * n), tags=tags,
                                 what='deep-equal(parse-xml(serialize($e)), $e) over a sequence of nodes', site='fn:serialize / fn:parse-xml'))
     return out
@@ -2027,7 +2114,7 @@ def smaller_values(v: Any):
 
 def shrink(d: Disagreement) -> Disagreement:
     case = getattr(d, '_case', None)
-    if isinstance(d.case, dict) and d.case.get('kind') in ('REUSE', 'MULTI', 'PURITY', 'SERP', 'SERH', 'NEG'):
+    if isinstance(d.case, dict) and d.case.get('kind') in ('REUSE', 'MULTI', 'PURITY', 'PATHS', 'SERP', 'SERH', 'NEG'):
         return d                      # already a minimal replayed history
     if case is None or case['kind'] in ('XML', 'X2J', 'MULTI', 'REUSE'):
         return d
@@ -2086,7 +2173,7 @@ def body(run: Run) -> int:
     except DriverError as e:
         run.broken.append('driver:C17 ' + str(e)[:300])
     run.stats.extra['purity'] = {'evaluations_with_input_trees_snapshotted_before_and_after': PURITY['calls_with_trees']}
-    run.stats.extra['token_reuse'] = {'tokens': REUSE['tokens'], 'evaluations_through_reused_tokens': REUSE['evaluations'],
+    run.stats.extra['token_reuse'] = {'also_through_iter_select_and_evaluate': REUSE.get('other_paths', 0), 'tokens': REUSE['tokens'], 'evaluations_through_reused_tokens': REUSE['evaluations'],
                                       'each_compared_with': 'a freshly parsed expression (elementpath.select)'}
     return run.finish('proof', shrink=shrink, search=search)
 
